@@ -1046,6 +1046,11 @@ fn key_choices<'a>(keys: &[&'a str], k: usize) -> Vec<Vec<&'a str>> {
 
 /// pointers worth trying on a document: every node path plus single-token perturbations
 fn pointers_for(d: &Doc) -> Vec<String> {
+    pointers_for_depth(d, true)
+}
+
+/// `rich = false`: a leaner perturbation set for the largest document size of the thorough tier
+fn pointers_for_depth(d: &Doc, rich: bool) -> Vec<String> {
     let mut set = std::collections::BTreeSet::new();
     for path in all_paths(d) {
         let p = ptr_of_path(&path);
@@ -1057,17 +1062,25 @@ fn pointers_for(d: &Doc) -> Vec<String> {
             _ => 0,
         };
         // append one token
-        for t in ["-", "0", "00", "+1", "1", "a", "", "~01", "~0", "zz", &len.to_string(), &(len + 1).to_string(), "18446744073709551616", "é"] {
+        let lens = [len.to_string(), (len + 1).to_string()];
+        let appended: Vec<&str> = if rich {
+            vec!["-", "0", "00", "+1", "1", "a", "", "~01", "~0", "zz", &lens[0], &lens[1], "18446744073709551616", "é"]
+        } else {
+            vec!["-", "0", "01", "a", "~0", &lens[0]]
+        };
+        for t in appended {
             set.insert(format!("{p}/{t}"));
             // and one more below it (expansion paths, errors below a failure)
-            for u in ["0", "-", "b", ""] {
+            let below: &[&str] = if rich { &["0", "-", "b", ""] } else { &["-"] };
+            for u in below {
                 set.insert(format!("{p}/{t}/{u}"));
             }
         }
         // replace the last token
         if let Some((_, init)) = toks.split_last() {
             let base: String = init.iter().map(|t| format!("/{t}")).collect();
-            for t in ["-", "0", "01", "1", "~1", "~01", "", "x"] {
+            let repl: &[&str] = if rich { &["-", "0", "01", "1", "~1", "~01", "", "x"] } else { &["-", "~1"] };
+            for t in repl {
                 set.insert(format!("{base}/{t}"));
             }
         }
@@ -1096,14 +1109,19 @@ pub fn gen(tier: &str, rng: &mut Rng, emit: &mut dyn FnMut(String)) {
             if n == maxn {
                 memo.clear();
             }
+            let lean = tier == "thorough" && n == maxn;
             for d in docs_with_nodes(n, &ks, &sc, &mut memo) {
                 let ds = doc_str(&d);
                 emit(format!("tree {be} {ds} N"));
-                for p in pointers_for(&d) {
+                for p in pointers_for_depth(&d, !lean) {
                     let x = hex(p.as_bytes());
                     emit(format!("tree {be} {ds} R {x}"));
-                    emit(format!("tree {be} {ds} M {x}"));
                     emit(format!("tree {be} {ds} D {x}"));
+                    if lean {
+                        emit(format!("tree {be} {ds} A {x} {}", doc_str(&values(common)[1])));
+                        continue;
+                    }
+                    emit(format!("tree {be} {ds} M {x}"));
                     for v in values(common) {
                         emit(format!("tree {be} {ds} A {x} {}", doc_str(&v)));
                     }
